@@ -124,6 +124,10 @@ func genC2F(t *rapid.T) c2fCase {
 		// is reached by the dilated coarse mesh only because of the second half of the dilation
 		c.K = gen.F(t, 3, 5, "kfar")
 		big = c.K * c.Delta
+		if rapid.Bool().Draw(t, "farextra") {
+			// ... and the caller's extraSpace: a satellite further out than the built-in dilation alone reaches
+			c.Extra = gen.F(t, 1.2, 3, "extrafar")
+		}
 		R := big * gen.F(t, 2.5, 3.5, "R")
 		ctr := gen.Vec3(t, 1, "c0")
 		rho := big * gen.F(t, 0.12, 0.3, "rho")
@@ -442,6 +446,9 @@ func genC2F2(t *rapid.T) c2f2Case {
 		// see genC2F; the 2D leaf blocks are 8-11 fine cells across, hence the larger coarse factor
 		c.K = gen.F(t, 4, 8, "kfar")
 		big = c.K * c.Delta
+		if rapid.Bool().Draw(t, "farextra") {
+			c.Extra = gen.F(t, 1.2, 3, "extrafar")
+		}
 		R := big * gen.F(t, 2.5, 4, "R")
 		ctr := gen.Vec2(t, 1, "c0")
 		rho := big * gen.F(t, 0.1, 0.3, "rho")
